@@ -180,13 +180,13 @@ func execCache(in, outp string) {
 					s.close()
 					s = nil
 				}
-				if (len(t) == 3 || len(t) == 7) && t[2] == "citadel" {
+				if (len(t) == 3 || len(t) == 7 || len(t) == 8) && t[2] == "citadel" {
 					r, j := 0.5, 0.0
-					if len(t) == 7 {
+					if len(t) >= 7 {
 						r, _ = fracToken(t[3], t[4])
 						j, _ = fracToken(t[5], t[6])
 					}
-					s = newCitadelSUT(r, j)
+					s = newCitadelSUT(r, j, len(t) == 8 && t[7] == "tls")
 				}
 				if (len(t) == 7 || len(t) == 8) && t[2] == "cache" {
 					r, ok1 := fracToken(t[3], t[4])
@@ -218,6 +218,10 @@ func execCache(in, outp string) {
 			}
 			if s == nil {
 				s = newSUT(0.5, 0, false)
+			}
+			if t[0] == "rootfile" {
+				out.Line(s.rootFile(t))
+				return
 			}
 			if t[0] == "cgen" {
 				g, ok := s.cgenAsGen(t)
@@ -373,7 +377,7 @@ func oracleCache(in, outp string) {
 				jitter, _ = fracToken(t[5], t[6])
 			}
 			if len(t) >= 3 && t[2] == "citadel" {
-				s = newCitadelSUT(ratio, jitter)
+				s = newCitadelSUT(ratio, jitter, len(t) == 8 && t[7] == "tls")
 			}
 			nilCA = false
 			if len(t) == 8 && t[2] == "cache" {
@@ -414,6 +418,10 @@ func oracleCache(in, outp string) {
 					fail("crash", t, fmt.Sprint(e))
 				}
 			}()
+			if t[0] == "rootfile" {
+				s.rootFile(t)
+				return
+			}
 			orig := t
 			if t[0] == "cgen" {
 				g, ok := s.cgenAsGen(t)
@@ -451,6 +459,15 @@ func oracleCache(in, outp string) {
 						fail("nil-ca-client", t, fmt.Sprint(err))
 					}
 					return
+				}
+				if err == nil && oc.kind != "ok" && dc > 0 && (orig[0] != "cgen" || orig[2] == "error") {
+					// the CA call returned an error and the request succeeded.  (A malformed answer of the gRPC CA that
+					// the Citadel client lets through - leaf-only / empty chain - is named by what is wrong with the
+					// served result further down: root-not-ca, pair-mismatch, ...)
+					fail("ca-error-ignored", t, oc.kind)
+				}
+				if err != nil && (before != nil || oc.kind == "ok") {
+					fail("sticky-failure", t, err.Error()) // a healthy CA / a cached certificate, and the request still fails
 				}
 				if before != nil && dc != 0 {
 					fail("hit-called-ca", t, fmt.Sprint(dc))
